@@ -257,9 +257,10 @@ pub fn diff(got: &J, want: &J, path: &str) -> Option<(String, String, String)> {
             if a == b {
                 return None;
             }
-            // float spellings: equal iff they parse to the same bits
+            // float spellings: equal iff they parse to the same bits - only where the decoded
+            // structure holds a float (`want` is spelled as one); integers must match digit by digit
             let is_float = |s: &str| s.contains('.') || s.contains('e') || s.contains('E');
-            if is_float(a) || is_float(b) {
+            if is_float(b) {
                 if let (Ok(x), Ok(y)) = (a.parse::<f64>(), b.parse::<f64>()) {
                     if x.to_bits() == y.to_bits() {
                         return None;
